@@ -16,12 +16,12 @@ import (
 	"net"
 	"net/textproto"
 	"net/url"
+	"os"
 	"sort"
 	"strconv"
 	"strings"
 	"testing"
 
-	"github.com/megaease/easegress/pkg/util/readers"
 )
 
 type c03Adapt struct {
@@ -111,13 +111,19 @@ type c03Obs struct {
 // ---------------------------------------------------------------------------
 // oracles (real library functions)
 
+// c03Gzip is the gzip oracle: compress/gzip in one shot (default level, empty
+// header), deliberately NOT easegress' own readers.GZipCompressReader, whose
+// output must be byte-identical to it.
 func c03Gzip(b []byte) []byte {
-	zr := readers.NewGZipCompressReader(bytes.NewReader(b))
-	out, err := io.ReadAll(zr)
-	if err != nil {
+	var w bytes.Buffer
+	zw := gzip.NewWriter(&w)
+	if _, err := zw.Write(b); err != nil {
 		panic(err)
 	}
-	return out
+	if err := zw.Close(); err != nil {
+		panic(err)
+	}
+	return w.Bytes()
 }
 
 func c03GunzipOf(b []byte) ([]byte, bool) {
@@ -447,6 +453,10 @@ func c03Text(r *vfRand, n int) []byte {
 }
 
 func c03Size(r *vfRand, minLen int, big int) int {
+	if r.Chance(1, 30) {
+		b := c03Bases()
+		return b[r.Intn(len(b))] + r.PickInt(-1, 0, 0, 1)
+	}
 	if minLen > 0 && r.Chance(1, 2) {
 		return r.PickInt(minLen-1, minLen, minLen+1, 2*minLen, minLen/2)
 	}
@@ -572,6 +582,83 @@ func c03Gen(r *vfRand, adv bool) (in c03In) {
 	return
 }
 
+// c03Bases are the internal buffer sizes of the code paths involved: net/http's
+// chunk writer (2048) and bufio readers/writers (4096), the gzip reader's pull
+// round (8 pages) which is also io.Copy's buffer, and twice that.
+func c03Bases() []int { return []int{2048, 4096, 8 * os.Getpagesize(), 16 * os.Getpagesize()} }
+
+// c03GenBoundary builds case j of the boundary schedule: every body-transforming
+// path of the gateway (proxy compression, transparent gunzip, Request/Response
+// Adaptor compress / decompress, plain pass-through; buffered and stream mode) with
+// a body whose (decoded) size is an exact multiple of an internal buffer size, or
+// one byte off.
+func c03GenBoundary(r *vfRand, j int) (in c03In) {
+	path := j % 14
+	round := 8 * os.Getpagesize()
+	var n int
+	switch (j / 14) % 3 {
+	case 0:
+		n = round * (1 + (j/42)%3)
+	case 1:
+		b := c03Bases()
+		n = b[r.Intn(len(b))]*r.PickInt(1, 1, 2, 3) + r.PickInt(-1, 0, 0, 1)
+	default:
+		n = 2 * round * (1 + (j/42)%2)
+	}
+	text := c03Text(r, n)
+	in.Method, in.Host = "POST", "front.test"
+	in.Target = fmt.Sprintf("/boundary/%d/%d", path, n)
+	in.Headers = [][2]string{{"X-Trace", "t-1"}, {"Accept-Encoding", "gzip"}}
+	in.ReqEnc, in.ReqBody, in.ReqChunk = "cl", []byte("ping"), 4096
+	in.SrvHost, in.MinLen = "127.0.0.1", -1
+	in.RespStatus, in.RespEnc, in.RespChunk = 200, "cl", r.PickInt(4096, 1000, 1<<20)
+	in.RespBody = []byte("pong")
+	in.RespHeaders = [][2]string{{"Content-Type", "text/plain; charset=utf-8"}}
+	gz := func() {
+		in.RespBody = c03Gzip(text)
+		in.RespHeaders = append(in.RespHeaders, [2]string{"Content-Encoding", "gzip"})
+	}
+	switch path {
+	case 0: // proxy compression, chunked backend
+		in.MinLen, in.RespEnc, in.RespBody = 0, "chunked", text
+	case 1: // proxy compression, close-delimited backend
+		in.MinLen, in.RespEnc, in.RespBody = 100, "close", text
+	case 2: // ResponseAdaptor compress, buffered
+		in.RS, in.RespBody = c03Adapt{On: true, Compress: true}, text
+	case 3: // ResponseAdaptor compress, stream
+		in.RS, in.RespBody, in.SStream = c03Adapt{On: true, Compress: true}, text, true
+	case 4: // ResponseAdaptor decompress, buffered
+		in.RS = c03Adapt{On: true, Decompress: true}
+		gz()
+	case 5: // ResponseAdaptor decompress, stream
+		in.RS, in.SStream = c03Adapt{On: true, Decompress: true}, true
+		gz()
+	case 6: // RequestAdaptor compress, buffered
+		in.RA, in.ReqBody = c03Adapt{On: true, Compress: true}, text
+	case 7: // RequestAdaptor compress, streamed chunked request
+		in.RA, in.ReqBody, in.ReqEnc, in.CStream = c03Adapt{On: true, Compress: true}, text, "chunked", true
+	case 8: // RequestAdaptor decompress, buffered
+		in.RA, in.ReqBody = c03Adapt{On: true, Decompress: true}, c03Gzip(text)
+		in.Headers = append(in.Headers, [2]string{"Content-Encoding", "gzip"})
+	case 9: // RequestAdaptor decompress, stream
+		in.RA, in.ReqBody, in.CStream = c03Adapt{On: true, Decompress: true}, c03Gzip(text), true
+		in.Headers = append(in.Headers, [2]string{"Content-Encoding", "gzip"})
+	case 10: // transparent gunzip by the transport (the client did not ask for gzip)
+		in.Headers = in.Headers[:1]
+		in.SStream = j%2 == 0
+		gz()
+	case 11: // plain pass-through, buffered
+		in.ReqBody, in.RespBody, in.RespEnc = text, text, "chunked"
+	case 12: // plain pass-through, stream mode in both directions
+		in.ReqBody, in.RespBody, in.CStream, in.SStream, in.ReqEnc = text, text, true, true, "chunked"
+	default: // proxy compression followed by ResponseAdaptor decompress
+		in.MinLen, in.RespEnc, in.RespBody = 0, "chunked", text
+		in.RS = c03Adapt{On: true, Decompress: true}
+	}
+	c03FillOracle(&in)
+	return
+}
+
 func TestVerifC03E2E(t *testing.T) {
 	out := vfOpen(t)
 	defer out.Close()
@@ -594,7 +681,12 @@ func TestVerifC03E2E(t *testing.T) {
 	}
 	n := vfN(200)
 	for i := 0; i < n; i++ {
-		in := c03Gen(root.Fork(i), adv)
+		var in c03In
+		if i%15 == 7 {
+			in = c03GenBoundary(root.Fork(i), i/15)
+		} else {
+			in = c03Gen(root.Fork(i), adv)
+		}
 		out.Emit(vfCase{ID: fmt.Sprintf("%s-e2e-%d", src, i), Src: src, Grp: "e2e", In: in, Obs: c03Run(in)})
 	}
 }
